@@ -54,6 +54,16 @@ def err_core(r):
     return ("other", json.dumps(r, sort_keys=True)[:200])
 
 
+def jnodup(j):
+    """python twin of Model/SerdeDoc.v jnodup: every object of the tree has pairwise distinct keys"""
+    if isinstance(j, tuple) and j[0] == "obj":
+        ks = [k for k, _ in j[1]]
+        return len(ks) == len(set(ks)) and all(jnodup(x) for _, x in j[1])
+    if isinstance(j, list):
+        return all(jnodup(x) for x in j)
+    return True
+
+
 def canon_maps(v):
     """sort VMap entries (HashMap iteration order is not part of the value)"""
     k = v[0]
@@ -69,7 +79,7 @@ def canon_maps(v):
 
 
 COQ_HEADER = ("From Coq Require Import List NArith ZArith.\n"
-              "From PV Require Import Lib.ListX Model.Json Model.Serde Gen.GenSerde.\n"
+              "From PV Require Import Lib.ListX Model.Json Model.Serde Model.SerdeDoc Gen.GenSerde.\n"
               "Import ListNotations.\nLocal Open Scope Z_scope.\nSet Printing Depth 1000000.\nSet Printing Width 2000.\n")
 
 
@@ -179,8 +189,13 @@ def run():
             if not S.json_eq(back, tree):
                 case["got"] = {"model": S.dumps(back)[:600], "impl": S.dumps(tree)[:600]}
                 ck.violation("ser (de json) <> json for prqlc's own %s JSON" % kind.upper(), case)
+            elif not jnodup(tree):
+                ck.violation("prqlc wrote a JSON object with a duplicate key", case)
             else:
                 ck.stat("model-de-ser", "agree")
+                # exactly the premise of c15_staged_eq_direct_docs for this stage value: the model reads it from a
+                # document with distinct keys (and writes the same document back)
+                ck.stat("model-de-ser", "hyp:from_doc(%s)" % ("dPL" if kind == "pl" else "dRQ"))
             if not env.json_ok(v):
                 ck.violation("a non-finite float came out of JSON", case)
             sz = S.json_size(tree)
@@ -267,7 +282,7 @@ def run():
         exprs = []
         for kind, p, tree, v in sample:
             root = "root_pl" if kind == "pl" else "root_rq"
-            exprs.append("(let j := %s in match de GenSerde.env GenSerde.%s j with Some v => (true, json_eqb (ser GenSerde.env GenSerde.%s v) j, json_ok v, v) | None => (false, false, false, VNone) end)"
+            exprs.append("(let j := %s in match de GenSerde.env GenSerde.%s j with Some v => (true, json_eqb (ser GenSerde.env GenSerde.%s v) j, andb (json_ok v) (jnodup j), v) | None => (false, false, false, VNone) end)"
                          % (S.coq_json(tree), root, root))
         try:
             vals = coq_eval(COQ_HEADER, exprs)
@@ -281,8 +296,8 @@ def run():
                 if r is None:
                     ck.violation("no Coq result for a case", case); continue
                 ok_de, ok_ser, ok_json, cv = r
-                if not ok_de or not ok_ser:
-                    case["got"] = {"de": ok_de, "ser_eq": ok_ser}
+                if not ok_de or not ok_ser or not ok_json:
+                    case["got"] = {"de": ok_de, "ser_eq": ok_ser, "json_ok_and_jnodup": ok_json}
                     ck.violation("Coq model: de / ser (de json) = json fails on a document real serde round-trips", case); continue
                 try:
                     pv = S.value_of_term(cv)
@@ -322,6 +337,11 @@ def run():
         ck.count("staged-vs-direct", key, nontrivial=(dc[0] == "ok"))
         ck.stat("staged-vs-direct", "direct:" + dc[0])
         if dc == sc:
+            # the error hypotheses of the staged theorems, per stage: core (compose1 s e) = core e (parse errors),
+            # core (compose s o e) = core e (resolver / SQL back-end errors)
+            if dc[0] == "err" and isinstance(st, dict):
+                ck.stat("staged-vs-direct", {"prql_to_pl": "hyp:core_compose1(parse-error)", "pl_to_rq": "hyp:core_compose(resolve-error)",
+                                             "rq_to_sql": "hyp:core_compose(sql-error)"}.get(st.get("stage"), "err-agree@" + str(st.get("stage"))))
             continue
         if dc[0] == "panic" and sc[0] == "panic":
             continue
